@@ -27,32 +27,77 @@ COMMAND_BUILDER_CLASS = "GeckoPackCommandProtocolHandler"
 
 
 def counter_attrs(fi):
-    """self attributes written by the counter function (role: the counters)."""
+    """self attributes the counter function reads or writes (role: the counter state); the
+    context expressions of `with` (the lock) and called methods are not state."""
+    skip = set()
+    for n in walk_no_nested(fi.node):
+        if isinstance(n, (ast.With, ast.AsyncWith)):
+            for it in n.items:
+                for a in ast.walk(it.context_expr):
+                    if isinstance(a, ast.Attribute):
+                        skip.add(id(a))
+        if isinstance(n, ast.Call) and isinstance(n.func, ast.Attribute):
+            skip.add(id(n.func))
     out = []
     for n in walk_no_nested(fi.node):
-        ts = []
-        if isinstance(n, ast.Assign):
-            ts = n.targets
-        elif isinstance(n, ast.AugAssign):
-            ts = [n.target]
-        for t in ts:
-            if isinstance(t, ast.Attribute) and isinstance(t.value, ast.Name) and t.value.id == "self":
-                if t.attr not in out:
-                    out.append(t.attr)
+        if isinstance(n, ast.Attribute) and isinstance(n.value, ast.Name) and n.value.id == "self" and id(n) not in skip:
+            if n.attr not in out:
+                out.append(n.attr)
     return out
 
 
-def init_consts(repo, cname, attrs):
+def _fresh(repo, init, e):
+    """does evaluating `e` in __init__ give this instance its own object?  True for immutable
+    constants and for displays / copies; False for a bare reference to a module- or class-level
+    mutable object (every instance would share it); None if not recognised"""
+    if isinstance(e, ast.Constant):
+        return True
+    if isinstance(e, (ast.Dict, ast.List, ast.DictComp, ast.ListComp)):
+        return True
+    if isinstance(e, ast.Call):
+        f = ast.unparse(e.func)
+        if f in ("dict", "list", "copy.copy", "copy.deepcopy", "deepcopy") or f.endswith(".copy"):
+            return True
+        return None
+    if isinstance(e, (ast.Name, ast.Attribute)):
+        try:
+            v = repo.fold(e, init.mod, init.cls)
+        except Unfoldable:
+            return None
+        return not isinstance(v, (dict, list, set))
+    if isinstance(e, (ast.BinOp, ast.UnaryOp)):
+        try:
+            v = repo.fold(e, init.mod, init.cls)
+        except Unfoldable:
+            return None
+        return not isinstance(v, (dict, list, set))
+    return None
+
+
+def init_consts(ctx, repo, cname, attrs):
     init = repo.own_method(cname, "__init__")
     vals = {}
     for n in walk_no_nested(init.node):
-        if isinstance(n, ast.Assign):
-            for t in n.targets:
+        if isinstance(n, (ast.Assign, ast.AnnAssign)) and getattr(n, "value", None) is not None:
+            for t in (n.targets if isinstance(n, ast.Assign) else [n.target]):
                 if isinstance(t, ast.Attribute) and isinstance(t.value, ast.Name) and t.value.id == "self" and t.attr in attrs:
+                    e = n.value
+                    if isinstance(e, ast.Call) and e.args and (ast.unparse(e.func) in ("dict", "list", "copy.copy", "copy.deepcopy", "deepcopy")):
+                        src = e.args[0]
+                    elif isinstance(e, ast.Call) and isinstance(e.func, ast.Attribute) and e.func.attr == "copy" and not e.args:
+                        src = e.func.value
+                    else:
+                        src = e
                     try:
-                        vals[t.attr] = repo.fold(n.value, init.mod, init.cls)
+                        vals[t.attr] = repo.fold(src, init.mod, init.cls)
                     except Unfoldable:
                         raise AnalysisError(f"{cname}.__init__: initial value of {t.attr} is not a constant")
+                    fr = _fresh(repo, init, e)
+                    if fr is None:
+                        raise AnalysisError(f"{cname}.__init__: cannot tell whether `self.{t.attr} = {ast.unparse(e)}` gives the instance its own object - idiom not supported by C16.R3")
+                    ctx.ob("R3", f"{cname}::{t.attr}::own-object", fr,
+                           f"{cname}.__init__: `self.{t.attr} = {ast.unparse(e)}` binds a module/class-level mutable object without copying it: every connection shares (and advances) the same counters, so sequences are not independent per connection",
+                           loc(init, n))
     return vals, init
 
 
@@ -61,16 +106,35 @@ def succ_law(prev, cur, rng):
     return cur == (prev + 1 if prev < hi else lo)
 
 
+def _freeze(v):
+    if isinstance(v, dict):
+        return ("dict", tuple(sorted(v.items(), key=repr)))
+    if isinstance(v, list):
+        return ("list", tuple(v))
+    return v
+
+
+def _thaw(v):
+    if isinstance(v, tuple) and v and v[0] == "dict":
+        return dict(v[1])
+    if isinstance(v, tuple) and v and v[0] == "list":
+        return list(v[1])
+    return v
+
+
 def fixpoint(ctx, repo, cname, tier):
     fi = repo.own_method(cname, FN)
     attrs = counter_attrs(fi)
-    if len(attrs) != 2:
-        ctx.ob("R1", f"{cname}::counters", False,
-               f"{fi.qual} writes {attrs}: expected exactly two distinct counter attributes", fi.loc)
-        return
-    init, initfi = init_consts(repo, cname, attrs)
+    if not attrs:
+        glob = [ast.unparse(t) for n in walk_no_nested(fi.node) if isinstance(n, (ast.Assign, ast.AugAssign))
+                for t in (n.targets if isinstance(n, ast.Assign) else [n.target]) if isinstance(t, ast.Subscript) and isinstance(t.value, ast.Name)]
+        if glob or any(isinstance(n, (ast.Global, ast.Nonlocal)) for n in walk_no_nested(fi.node)):
+            ctx.ob("R3", f"{cname}::instance-state", False, f"{fi.qual} keeps its counters in {glob or 'global names'}, not in the instance: every connection shares them", fi.loc)
+            return
+        raise AnalysisError(f"{fi.qual}: no counter state found - idiom not supported by C16")
+    init, initfi = init_consts(ctx, repo, cname, attrs)
     ctx.ob("R3", f"{cname}::instance-state", set(init) == set(attrs),
-           f"counters {attrs} are not both initialised to constants in {cname}.__init__ (found {init})", initfi.loc)
+           f"counter state {attrs} is not completely initialised to constants in {cname}.__init__ (found {sorted(init)})", initfi.loc)
     if set(init) != set(attrs):
         return
     # class-level / module-level state would make them shared between connections
@@ -83,24 +147,25 @@ def fixpoint(ctx, repo, cname, tier):
 
     interp = Interp(repo)
     lock = Obj(None, name="lock")
-    start = (init[attrs[0]], init[attrs[1]], None, None)
+    start = (tuple(_freeze(init[a]) for a in attrs), None, None)
     seen = {start}
     q = deque([start])
     rets = {False: set(), True: set()}
-    trans = {}
-    proto_first = init[attrs[0]] < init[attrs[1]]  # canonical order: (protocol counter, command counter)
+    res = {}
     nviol = 0
     ntrans = 0
     cap = 60000
     while q and nviol < 20:
         s = q.popleft()
         for kind in (False, True):
-            obj = Obj(c, {attrs[0]: s[0], attrs[1]: s[1], "_lock": lock})
+            d = {a: _thaw(v) for a, v in zip(attrs, s[0])}
+            d["_lock"] = lock
+            obj = Obj(c, d)
             interp.steps = 0
             try:
                 r = interp.call(fi, obj, [kind])
             except PyRaise as e:
-                ctx.ob("R1", f"{cname}::raises", False, f"{fi.qual}({kind}) raises {e.what} in state {s[:2]}", fi.loc)
+                ctx.ob("R1", f"{cname}::raises", False, f"{fi.qual}({kind}) raises {e.what} in state {dict(zip(attrs, s[0]))}", fi.loc)
                 nviol += 1
                 continue
             except Undecided as e:
@@ -110,17 +175,16 @@ def fixpoint(ctx, repo, cname, tier):
             name = "command" if kind else "protocol"
             if not isinstance(r, int) or isinstance(r, bool) or r not in rng:
                 ctx.ob("R1", f"{cname}::{name}-range", False,
-                       f"{fi.qual}({kind}) returns {r!r} from counter state {dict(zip(attrs, s[:2]))}: outside {min(rng)}..{max(rng)}", fi.loc)
+                       f"{fi.qual}({kind}) returns {r!r} from counter state {dict(zip(attrs, s[0]))}: outside {min(rng)}..{max(rng)}", fi.loc)
                 nviol += 1
-            prev = s[3] if kind else s[2]
+            prev = s[2] if kind else s[1]
             if prev is not None and isinstance(r, int) and not succ_law(prev, r, rng):
                 ctx.ob("R2", f"{cname}::{name}-successor", False,
                        f"{fi.qual}({kind}) returns {r} after {prev}: not the successor in the cycle {min(rng)}..{max(rng)}", fi.loc)
                 nviol += 1
             rets[kind].add(r)
-            ns = (obj.attrs.get(attrs[0]), obj.attrs.get(attrs[1]), r if not kind else s[2], r if kind else s[3])
-            can = (lambda t: (t[0], t[1]) if proto_first else (t[1], t[0]))
-            trans[(can(s), kind)] = (r, can(ns))
+            ns = (tuple(_freeze(obj.attrs.get(a)) for a in attrs), r if not kind else s[1], r if kind else s[2])
+            res[(s, kind)] = (r, ns)
             if ns not in seen:
                 if len(seen) >= cap:
                     ctx.ob("R1", f"{cname}::bounded", False, f"{fi.qual}: counter state space not closed after {cap} states (counter never wraps?)", fi.loc)
@@ -129,6 +193,15 @@ def fixpoint(ctx, repo, cname, tier):
                     break
                 seen.add(ns)
                 q.append(ns)
+    # observational form of the transition function (independent of how the state is represented):
+    # a state is identified by what it would issue next for each kind
+    def obs(st):
+        a, b = res.get((st, False)), res.get((st, True))
+        return (a[0] if a else None, b[0] if b else None)
+    trans = {}
+    for (st, kind), (r, ns) in res.items():
+        trans.setdefault((obs(st), kind), set()).add((r, obs(ns)))
+    trans = {k: sorted(v, key=repr) for k, v in trans.items()}
     ctx.count(f"{cname}:reachable_states", len(seen))
     ctx.count(f"{cname}:transitions", ntrans)
     ctx.ob("R1", f"{cname}::protocol-set", rets[False] == PROTO or nviol > 0,
